@@ -180,6 +180,18 @@ func runRun(t *testing.T, s *Scenario) (evs []wire.Event) {
 		}
 		defer exec.Command("iptables", append([]string{"-D"}, rule...)...).Run()
 	}
+	if rp.TCPBlock == "noudp" {
+		// policy routing refuses datagram routes to the target (stream routes work)
+		run := func(undo bool, lines ...string) {
+			for _, l := range lines {
+				if out, err := exec.Command("sh", "-c", l).CombinedOutput(); err != nil && !undo {
+					t.Fatalf("harness: %s: %v %s", l, err, out)
+				}
+			}
+		}
+		run(false, "ip rule add pref 10 lookup local", "ip rule del pref 0", "ip rule add pref 5 ipproto udp to "+rp.Hostname+" unreachable")
+		defer run(true, "ip rule del pref 5", "ip rule add pref 0 lookup local", "ip rule del pref 10")
+	}
 	if rp.TCPBlock == "src2" {
 		// policy routing: TCP to the target leaves from ANOTHER local address (10.77.0.2) than everything else (10.77.0.1)
 		sh := func(undo bool, lines ...string) {
